@@ -46,7 +46,7 @@ type fcase struct {
 }
 
 func suiteC18(cfg Config, res *Result) {
-	res.Rule = "per filter, exhaustive integer windows: slice bounds -8..8 (and missing) squared over strings/lists/arrays of length 0..6 incl. multi-byte; widths -3..20 over strings of length 0..12 for center/ljust/rjust/truncatechars/truncatewords/wordwrap; numeric tables for add/divisibleby/get_digit/floatformat/pluralize/yesno/default*/integer/float; sequence ops first/last/length/length_is/join/split/make_list/cut/wordcount/linenumbers/linebreaksbr/capfirst/upper/lower; widthratio over a cube of small integers through the template; each compared with the Lean model and, where stated, an independent Go reference (Python slicing, padding shape, round-half-up); non-trivial = argument outside the trivial range or multi-byte input; distinct by (filter, value, parameter)"
+	res.Rule = "per filter, exhaustive integer windows: slice bounds -8..8 (and missing) squared over strings/lists/arrays of length 0..6 incl. multi-byte; widths -3..20 over strings of length 0..12 for center/ljust/rjust/truncatechars/truncatewords/wordwrap; numeric tables for add/divisibleby/get_digit/floatformat/pluralize/yesno/default*/integer/float; sequence ops first/last/length/length_is/join/split/make_list/cut/wordcount/linenumbers/linebreaksbr/capfirst/upper/lower; widthratio over a cube of small integers through the template; each compared with the Lean model and, where stated, an independent Go reference (Python slicing, padding shape, floating-point round of the ratio); non-trivial = argument outside the trivial range or multi-byte input; distinct by (filter, value, parameter)"
 	rng := NewRNG(cfg.Seed)
 	var cases []fcase
 	add := func(f string, v, p VT) { cases = append(cases, fcase{f: f, v: v, p: p}) }
@@ -209,11 +209,17 @@ func suiteC18(cfg Config, res *Result) {
 				r := implRender(src, nil)
 				res.Cases++
 				res.DistinctNontrivial++
-				// exact rational round-half-up: floor((2aw + b) / 2b)
-				want := (2*a*w + b) / (2 * b)
-				if r.Err != "" || r.Panicked || r.Out != fmt.Sprint(want) {
+				// the reference (Django) computes in floating point: round((value / max_value) * max_width);
+				// on an exact tie Python 2 rounds away from zero and Python 3 to even: both are accepted
+				x := float64(a) / float64(b) * float64(w)
+				want := []string{fmt.Sprint(int(math.Round(x)))}
+				if x-math.Floor(x) == 0.5 {
+					want = append(want, fmt.Sprint(int(math.RoundToEven(x))))
+				}
+				ok := r.Err == "" && !r.Panicked && (r.Out == want[0] || r.Out == want[len(want)-1])
+				if !ok {
 					sig := "c18-widthratio"
-					res.add(Finding{Kind: "oracle", Proj: "filter", Sig: sig, Case: hx(src), Impl: r.String(), Model: fmt.Sprintf("round-half-up(%d/%d*%d) = %d", a, b, w, want)})
+					res.add(Finding{Kind: "oracle", Proj: "filter", Sig: sig, Case: hx(src), Impl: r.String(), Model: fmt.Sprintf("round(%d/%d*%d = %v) = %s", a, b, w, x, strings.Join(want, " or "))})
 				}
 			}
 		}
